@@ -1,4 +1,841 @@
 package main
 
+// Translator for ocsp/ocsprevocationchecker.go → Crv/Generated/Ocsp.lean (C02, C05, C14).
+//
+// The anchored functions are matched statement by statement. What varies in a way the Lean model can interpret
+// (loop order, what a failed fetch/parse does, the tail condition, the filter, the cache key, the guard around
+// cache.Add, the arguments of the library call, the clauses of isAuthorizedResponder, …) is emitted as a value of
+// `Crv.Ocsp.Facts`; every other deviation from the known shape is an error (fail closed).
+
+import (
+	"fmt"
+	"go/ast"
+	"go/token"
+	"strconv"
+	"strings"
+)
+
+const ocspFile = "ocsp/ocsprevocationchecker.go"
+
+func ocspIsLogStmt(s ast.Stmt) bool {
+	es, ok := s.(*ast.ExprStmt)
+	if !ok {
+		return false
+	}
+	call, ok := es.X.(*ast.CallExpr)
+	if !ok {
+		return false
+	}
+	return strings.HasPrefix(exprStr(call.Fun), "c.logger.")
+}
+
+func ocspDropLogs(l []ast.Stmt) []ast.Stmt {
+	var out []ast.Stmt
+	for _, s := range l {
+		if !ocspIsLogStmt(s) {
+			out = append(out, s)
+		}
+	}
+	return out
+}
+
+func (c *ctx) ocspAssignIs(s ast.Stmt, lhs, rhs string) bool {
+	as, ok := s.(*ast.AssignStmt)
+	if !ok || len(as.Rhs) != 1 {
+		return false
+	}
+	var ls []string
+	for _, l := range as.Lhs {
+		ls = append(ls, exprStr(l))
+	}
+	return strings.Join(ls, ",") == lhs && exprStr(as.Rhs[0]) == rhs
+}
+
+func ocspCharList(s string) string {
+	var parts []string
+	for _, r := range s {
+		switch {
+		case r == '\'':
+			parts = append(parts, `'\''`)
+		case r == '\\':
+			parts = append(parts, `'\\'`)
+		case r < 0x20 || r >= 0x7f:
+			parts = append(parts, fmt.Sprintf("Char.ofNat %d", r))
+		default:
+			parts = append(parts, "'"+string(r)+"'")
+		}
+	}
+	return "[" + strings.Join(parts, ", ") + "]"
+}
+
+func ocspBool(b bool) string {
+	if b {
+		return "true"
+	}
+	return "false"
+}
+
+// durationMs evaluates `N * time.Unit` (or `time.Unit * N`, or a bare `time.Unit`) to milliseconds.
+func (c *ctx) ocspDurationMs(e ast.Expr) int64 {
+	unit := func(x ast.Expr) (int64, bool) {
+		switch exprStr(x) {
+		case "time.Millisecond":
+			return 1, true
+		case "time.Second":
+			return 1000, true
+		case "time.Minute":
+			return 60000, true
+		case "time.Hour":
+			return 3600000, true
+		}
+		return 0, false
+	}
+	if u, ok := unit(e); ok {
+		return u
+	}
+	if b, ok := e.(*ast.BinaryExpr); ok && b.Op == token.MUL {
+		x, y := b.X, b.Y
+		if _, ok := unit(x); ok {
+			x, y = y, x
+		}
+		if u, ok := unit(y); ok {
+			if lit, ok := x.(*ast.BasicLit); ok && lit.Kind == token.INT {
+				n, err := strconv.ParseInt(lit.Value, 0, 64)
+				if err == nil {
+					return n * u
+				}
+			}
+		}
+	}
+	fail("%s: unsupported duration expression %s", c.pos(e), exprStr(e))
+	return 0
+}
+
+func (c *ctx) ocspConstValue(rel, name string) ast.Expr {
+	for _, d := range c.file(rel).Decls {
+		gd, ok := d.(*ast.GenDecl)
+		if !ok || gd.Tok != token.CONST {
+			continue
+		}
+		for _, s := range gd.Specs {
+			vs := s.(*ast.ValueSpec)
+			for i, n := range vs.Names {
+				if n.Name == name && i < len(vs.Values) {
+					return vs.Values[i]
+				}
+			}
+		}
+	}
+	fail("const %s not found in %s", name, rel)
+	return nil
+}
+
+type ocspFacts struct {
+	httpPrefix                  string
+	filterLowercases            bool
+	maxClockSkewMs              int64
+	keyParts                    []string
+	cacheFirst                  bool
+	validUntilChecked           bool
+	loopOrder                   string
+	onFetchErr, onParseErr      string
+	revokedIffStatusRevoked     bool
+	evictionUsesNextUpdate      bool
+	addGuard                    string
+	validUntilIsNowPlusEviction bool
+	tailLenOf                   string
+	tailNeedsStrict             bool
+	parseAttempts               []string
+	authRules                   []string
+}
+
+// ---- filterHTTPOCSPServers ----------------------------------------------------------------
+
+func (c *ctx) ocspFilter(f *ocspFacts) {
+	fd := c.funcDecl(ocspFile, "OCSPRevocationChecker", "filterHTTPOCSPServers")
+	b := fd.Body.List
+	if len(b) != 3 || !c.ocspAssignIs(b[0], "httpOcspUrls", "make([]string,0)") {
+		fail("%s: filterHTTPOCSPServers: unexpected shape", c.pos(fd))
+	}
+	rs, ok := b[1].(*ast.RangeStmt)
+	if !ok || exprStr(rs.X) != "ocspServerList" || exprStr(rs.Value) != "ocspServer" || len(rs.Body.List) != 1 {
+		fail("%s: filterHTTPOCSPServers: expected `for _, ocspServer := range ocspServerList` with one statement", c.pos(b[1]))
+	}
+	ifs, ok := rs.Body.List[0].(*ast.IfStmt)
+	if !ok || ifs.Init != nil || ifs.Else != nil || len(ifs.Body.List) != 1 ||
+		!c.ocspAssignIs(ifs.Body.List[0], "httpOcspUrls", "append(httpOcspUrls,ocspServer)") {
+		fail("%s: filterHTTPOCSPServers: loop body is not `if … { httpOcspUrls = append(httpOcspUrls, ocspServer) }`", c.pos(rs))
+	}
+	call, ok := ifs.Cond.(*ast.CallExpr)
+	if !ok || exprStr(call.Fun) != "strings.HasPrefix" || len(call.Args) != 2 {
+		fail("%s: filterHTTPOCSPServers: condition is not strings.HasPrefix(…, literal): %s", c.pos(ifs), exprStr(ifs.Cond))
+	}
+	switch exprStr(call.Args[0]) {
+	case "strings.ToLower(ocspServer)":
+		f.filterLowercases = true
+	case "ocspServer":
+		f.filterLowercases = false
+	default:
+		fail("%s: filterHTTPOCSPServers: unsupported subject of the prefix test: %s", c.pos(call), exprStr(call.Args[0]))
+	}
+	lit, ok := call.Args[1].(*ast.BasicLit)
+	if !ok || lit.Kind != token.STRING {
+		fail("%s: filterHTTPOCSPServers: prefix is not a string literal", c.pos(call))
+	}
+	p, err := strconv.Unquote(lit.Value)
+	if err != nil {
+		fail("%s: %v", c.pos(lit), err)
+	}
+	f.httpPrefix = p
+	if r, ok := b[2].(*ast.ReturnStmt); !ok || len(r.Results) != 1 || exprStr(r.Results[0]) != "httpOcspUrls" {
+		fail("%s: filterHTTPOCSPServers: does not return httpOcspUrls", c.pos(b[2]))
+	}
+}
+
+// ---- calculateEvictionTime ----------------------------------------------------------------
+
+func (c *ctx) ocspEviction(f *ocspFacts) {
+	fd := c.funcDecl(ocspFile, "OCSPRevocationChecker", "calculateEvictionTime")
+	b := fd.Body.List
+	const def = "c.ocspConfig.DefaultCacheDurationParsed"
+	if len(b) == 1 {
+		if r, ok := b[0].(*ast.ReturnStmt); ok && len(r.Results) == 1 && exprStr(r.Results[0]) == def {
+			f.evictionUsesNextUpdate = false
+			return
+		}
+	}
+	if len(b) != 2 || !c.ocspAssignIs(b[0], "timeTillNextUpdate", "response.NextUpdate.Sub(time.Now())") {
+		fail("%s: calculateEvictionTime: unexpected shape", c.pos(fd))
+	}
+	ifs, ok := b[1].(*ast.IfStmt)
+	if !ok || ifs.Init != nil || exprStr(ifs.Cond) != "timeTillNextUpdate>0" || len(ifs.Body.List) != 1 {
+		fail("%s: calculateEvictionTime: expected `if timeTillNextUpdate > 0`", c.pos(b[1]))
+	}
+	r1, ok := ifs.Body.List[0].(*ast.ReturnStmt)
+	if !ok || len(r1.Results) != 1 ||
+		(exprStr(r1.Results[0]) != "timeTillNextUpdate+maxClockSkew" && exprStr(r1.Results[0]) != "maxClockSkew+timeTillNextUpdate") {
+		fail("%s: calculateEvictionTime: then-branch is not `return timeTillNextUpdate + maxClockSkew`", c.pos(ifs))
+	}
+	eb, ok := ifs.Else.(*ast.BlockStmt)
+	if !ok || len(eb.List) != 1 {
+		fail("%s: calculateEvictionTime: no else branch", c.pos(ifs))
+	}
+	r2, ok := eb.List[0].(*ast.ReturnStmt)
+	if !ok || len(r2.Results) != 1 || exprStr(r2.Results[0]) != def {
+		fail("%s: calculateEvictionTime: else-branch is not `return %s`", c.pos(eb), def)
+	}
+	f.evictionUsesNextUpdate = true
+}
+
+// ---- isAuthorizedResponder ----------------------------------------------------------------
+
+func (c *ctx) ocspAuthRules(f *ocspFacts) {
+	fd := c.funcDecl(ocspFile, "", "isAuthorizedResponder")
+	ps := fd.Type.Params.List
+	if len(ps) != 2 || len(ps[0].Names) != 1 || len(ps[1].Names) != 1 {
+		fail("%s: isAuthorizedResponder: unexpected parameters", c.pos(fd))
+	}
+	resp, iss := ps[0].Names[0].Name, ps[1].Names[0].Name
+	retBool := func(s ast.Stmt) (bool, bool) {
+		r, ok := s.(*ast.ReturnStmt)
+		if !ok || len(r.Results) != 1 {
+			return false, false
+		}
+		switch exprStr(r.Results[0]) {
+		case "true":
+			return true, true
+		case "false":
+			return false, true
+		}
+		return false, false
+	}
+	for i, s := range fd.Body.List {
+		last := i == len(fd.Body.List)-1
+		switch x := s.(type) {
+		case *ast.IfStmt:
+			if x.Init != nil || x.Else != nil || len(x.Body.List) != 1 {
+				fail("%s: isAuthorizedResponder: unsupported if", c.pos(x))
+			}
+			if v, ok := retBool(x.Body.List[0]); !ok || !v {
+				fail("%s: isAuthorizedResponder: if body is not `return true`", c.pos(x))
+			}
+			cond := exprStr(x.Cond)
+			if cond == "bytes.Equal("+resp+".Raw,"+iss+".Raw)" || cond == "bytes.Equal("+iss+".Raw,"+resp+".Raw)" {
+				f.authRules = append(f.authRules, "AuthRule.isIssuerItself")
+			} else {
+				fail("%s: isAuthorizedResponder: unsupported condition %s", c.pos(x), cond)
+			}
+		case *ast.RangeStmt:
+			if exprStr(x.X) != resp+".ExtKeyUsage" || x.Value == nil || len(x.Body.List) != 1 {
+				fail("%s: isAuthorizedResponder: unsupported loop", c.pos(x))
+			}
+			v := exprStr(x.Value)
+			ifs, ok := x.Body.List[0].(*ast.IfStmt)
+			if !ok || ifs.Init != nil || ifs.Else != nil || len(ifs.Body.List) != 1 {
+				fail("%s: isAuthorizedResponder: unsupported loop body", c.pos(x))
+			}
+			if b, ok := retBool(ifs.Body.List[0]); !ok || !b {
+				fail("%s: isAuthorizedResponder: loop body does not `return true`", c.pos(ifs))
+			}
+			cond := exprStr(ifs.Cond)
+			if cond == v+"==x509.ExtKeyUsageOCSPSigning" || cond == "x509.ExtKeyUsageOCSPSigning=="+v {
+				f.authRules = append(f.authRules, "AuthRule.hasOcspSigningEku")
+			} else {
+				fail("%s: isAuthorizedResponder: extended key usage test is not `== x509.ExtKeyUsageOCSPSigning`: %s", c.pos(ifs), cond)
+			}
+		case *ast.ReturnStmt:
+			v, ok := retBool(x)
+			if !ok || !last {
+				fail("%s: isAuthorizedResponder: unsupported return", c.pos(x))
+			}
+			if v {
+				f.authRules = append(f.authRules, "AuthRule.always")
+			}
+		default:
+			fail("%s: isAuthorizedResponder: unsupported statement", c.pos(s))
+		}
+		if last {
+			if _, ok := s.(*ast.ReturnStmt); !ok {
+				fail("%s: isAuthorizedResponder: does not end in a return", c.pos(s))
+			}
+		}
+	}
+}
+
+// ---- parseOcspResponse --------------------------------------------------------------------
+
+// parseCall recognises `ocspResponse, err := ocsp.ParseResponse[ForCert](output, [clientCertificate,] issuerExpr)`.
+func (c *ctx) ocspParseCall(s ast.Stmt, inLoop bool) (passesCert, passesIssuer bool) {
+	as, ok := s.(*ast.AssignStmt)
+	if !ok || len(as.Lhs) != 2 || len(as.Rhs) != 1 || exprStr(as.Lhs[0]) != "ocspResponse" || exprStr(as.Lhs[1]) != "err" {
+		fail("%s: parseOcspResponse: expected `ocspResponse, err := ocsp.ParseResponse…(…)`", c.pos(s))
+	}
+	call, ok := as.Rhs[0].(*ast.CallExpr)
+	if !ok {
+		fail("%s: parseOcspResponse: not a call", c.pos(s))
+	}
+	var issuer ast.Expr
+	switch exprStr(call.Fun) {
+	case "ocsp.ParseResponseForCert":
+		if len(call.Args) != 3 || exprStr(call.Args[0]) != "output" {
+			fail("%s: parseOcspResponse: unexpected arguments %s", c.pos(call), exprStr(call))
+		}
+		switch exprStr(call.Args[1]) {
+		case "clientCertificate":
+			passesCert = true
+		case "nil":
+			passesCert = false
+		default:
+			fail("%s: parseOcspResponse: unsupported certificate argument %s", c.pos(call), exprStr(call.Args[1]))
+		}
+		issuer = call.Args[2]
+	case "ocsp.ParseResponse":
+		if len(call.Args) != 2 || exprStr(call.Args[0]) != "output" {
+			fail("%s: parseOcspResponse: unexpected arguments %s", c.pos(call), exprStr(call))
+		}
+		issuer = call.Args[1]
+	default:
+		fail("%s: parseOcspResponse: unsupported library call %s", c.pos(call), exprStr(call.Fun))
+	}
+	switch exprStr(issuer) {
+	case "nil":
+		passesIssuer = false
+	case "certCandidate.Certificate":
+		if !inLoop {
+			fail("%s: parseOcspResponse: certCandidate used outside the candidate loop", c.pos(call))
+		}
+		passesIssuer = true
+	default:
+		fail("%s: parseOcspResponse: unsupported issuer argument %s", c.pos(call), exprStr(issuer))
+	}
+	return
+}
+
+func ocspIsContinueBlock(b *ast.BlockStmt) bool {
+	l := ocspDropLogs(b.List)
+	if len(l) != 1 {
+		return false
+	}
+	br, ok := l[0].(*ast.BranchStmt)
+	return ok && br.Tok == token.CONTINUE && br.Label == nil
+}
+
+func ocspReturnsRespNil(s ast.Stmt) bool {
+	r, ok := s.(*ast.ReturnStmt)
+	return ok && len(r.Results) == 2 && exprStr(r.Results[0]) == "ocspResponse" && exprStr(r.Results[1]) == "nil"
+}
+
+func (c *ctx) ocspParseAttempts(f *ocspFacts) {
+	fd := c.funcDecl(ocspFile, "OCSPRevocationChecker", "parseOcspResponse")
+	b := ocspDropLogs(fd.Body.List)
+	if len(b) < 1 {
+		fail("%s: parseOcspResponse: empty", c.pos(fd))
+	}
+	fin, ok := b[len(b)-1].(*ast.ReturnStmt)
+	if !ok || len(fin.Results) != 2 || exprStr(fin.Results[0]) != "nil" || exprStr(fin.Results[1]) == "nil" {
+		fail("%s: parseOcspResponse: does not end in `return nil, <error>`", c.pos(fd))
+	}
+	b = b[:len(b)-1]
+	emit := func(loop, cert, iss, auth bool) {
+		f.parseAttempts = append(f.parseAttempts, fmt.Sprintf("{ loopCands := %s, passesCert := %s, passesIssuer := %s, authCheck := %s }",
+			ocspBool(loop), ocspBool(cert), ocspBool(iss), ocspBool(auth)))
+	}
+	for i := 0; i < len(b); i++ {
+		switch x := b[i].(type) {
+		case *ast.RangeStmt:
+			if exprStr(x.X) != "certCandidates" || exprStr(x.Value) != "certCandidate" {
+				fail("%s: parseOcspResponse: loop is not `for _, certCandidate := range certCandidates`", c.pos(x))
+			}
+			body := ocspDropLogs(x.Body.List)
+			if len(body) < 3 {
+				fail("%s: parseOcspResponse: loop body too short", c.pos(x))
+			}
+			cert, iss := c.ocspParseCall(body[0], true)
+			ifErr, ok := body[1].(*ast.IfStmt)
+			if !ok || ifErr.Init != nil || ifErr.Else != nil || exprStr(ifErr.Cond) != "err!=nil" || !ocspIsContinueBlock(ifErr.Body) {
+				fail("%s: parseOcspResponse: expected `if err != nil { …; continue }`", c.pos(body[1]))
+			}
+			auth := false
+			rest := body[2:]
+			if len(rest) == 2 {
+				ifAuth, ok := rest[0].(*ast.IfStmt)
+				want := "ocspResponse.Certificate!=nil&&!isAuthorizedResponder(ocspResponse.Certificate,certCandidate.Certificate)"
+				if !ok || ifAuth.Init != nil || ifAuth.Else != nil || exprStr(ifAuth.Cond) != want || !ocspIsContinueBlock(ifAuth.Body) {
+					fail("%s: parseOcspResponse: unsupported statement between parse and return (expected the isAuthorizedResponder guard)", c.pos(rest[0]))
+				}
+				auth = true
+				rest = rest[1:]
+			}
+			if len(rest) != 1 || !ocspReturnsRespNil(rest[0]) {
+				fail("%s: parseOcspResponse: loop body does not end in `return ocspResponse, nil`", c.pos(x))
+			}
+			emit(true, cert, iss, auth)
+		case *ast.AssignStmt:
+			cert, iss := c.ocspParseCall(x, false)
+			if i+1 >= len(b) {
+				fail("%s: parseOcspResponse: parse call without result test", c.pos(x))
+			}
+			ifOk, ok := b[i+1].(*ast.IfStmt)
+			if !ok || ifOk.Init != nil || ifOk.Else != nil || exprStr(ifOk.Cond) != "err==nil" {
+				fail("%s: parseOcspResponse: expected `if err == nil { return ocspResponse, nil }`", c.pos(b[i+1]))
+			}
+			l := ocspDropLogs(ifOk.Body.List)
+			if len(l) != 1 || !ocspReturnsRespNil(l[0]) {
+				fail("%s: parseOcspResponse: expected `return ocspResponse, nil`", c.pos(ifOk))
+			}
+			emit(false, cert, iss, false)
+			i++
+		default:
+			fail("%s: parseOcspResponse: unsupported statement", c.pos(b[i]))
+		}
+	}
+}
+
+// ---- tryGetResponseFromCache --------------------------------------------------------------
+
+func (c *ctx) ocspTryGet(f *ocspFacts) {
+	fd := c.funcDecl(ocspFile, "OCSPRevocationChecker", "tryGetResponseFromCache")
+	b := ocspDropLogs(fd.Body.List)
+	if len(b) != 2 || !c.ocspAssignIs(b[0], "res,err", "c.cache.Value(cacheKey)") {
+		fail("%s: tryGetResponseFromCache: unexpected shape", c.pos(fd))
+	}
+	ifs, ok := b[1].(*ast.IfStmt)
+	if !ok || ifs.Init != nil || exprStr(ifs.Cond) != "err==nil" {
+		fail("%s: tryGetResponseFromCache: expected `if err == nil`", c.pos(b[1]))
+	}
+	eb, ok := ifs.Else.(*ast.BlockStmt)
+	if !ok {
+		fail("%s: tryGetResponseFromCache: no else branch", c.pos(ifs))
+	}
+	el := ocspDropLogs(eb.List)
+	if r, ok := el[0].(*ast.ReturnStmt); len(el) != 1 || !ok || len(r.Results) != 2 || exprStr(r.Results[0]) != "nil" || exprStr(r.Results[1]) != "err" {
+		fail("%s: tryGetResponseFromCache: else branch is not `return nil, err`", c.pos(eb))
+	}
+	tb := ocspDropLogs(ifs.Body.List)
+	if len(tb) < 2 || !c.ocspAssignIs(tb[0], "response", "res.Data().(cachedRevocationStatus)") {
+		fail("%s: tryGetResponseFromCache: cached value is not read as cachedRevocationStatus", c.pos(ifs))
+	}
+	rest := tb[1:]
+	f.validUntilChecked = false
+	if len(rest) == 2 {
+		chk, ok := rest[0].(*ast.IfStmt)
+		if !ok || chk.Init != nil || chk.Else != nil || exprStr(chk.Cond) != "time.Now().After(response.validUntil)" {
+			fail("%s: tryGetResponseFromCache: unsupported statement (expected the validUntil check)", c.pos(rest[0]))
+		}
+		cb := ocspDropLogs(chk.Body.List)
+		if len(cb) != 2 || !c.ocspAssignIs(cb[0], "_,_", "c.cache.Delete(cacheKey)") {
+			fail("%s: tryGetResponseFromCache: expired branch does not delete the item", c.pos(chk))
+		}
+		if r, ok := cb[1].(*ast.ReturnStmt); !ok || len(r.Results) != 2 || exprStr(r.Results[0]) != "nil" || exprStr(r.Results[1]) == "nil" {
+			fail("%s: tryGetResponseFromCache: expired branch does not return an error", c.pos(chk))
+		}
+		f.validUntilChecked = true
+		rest = rest[1:]
+	}
+	if r, ok := rest[0].(*ast.ReturnStmt); len(rest) != 1 || !ok || len(r.Results) != 2 || exprStr(r.Results[0]) != "&response.status" || exprStr(r.Results[1]) != "nil" {
+		fail("%s: tryGetResponseFromCache: hit does not `return &response.status, nil`", c.pos(ifs))
+	}
+}
+
+// ---- IsRevoked ----------------------------------------------------------------------------
+
+func ocspCompositeField(e ast.Expr, name string) (string, bool) {
+	if u, ok := e.(*ast.UnaryExpr); ok && u.Op == token.AND {
+		e = u.X
+	}
+	cl, ok := e.(*ast.CompositeLit)
+	if !ok {
+		return "", false
+	}
+	for _, el := range cl.Elts {
+		if kv, ok := el.(*ast.KeyValueExpr); ok && exprStr(kv.Key) == name {
+			return exprStr(kv.Value), true
+		}
+	}
+	return "", false
+}
+
+func ocspFlattenBin(e ast.Expr, op token.Token) []ast.Expr {
+	if p, ok := e.(*ast.ParenExpr); ok {
+		return ocspFlattenBin(p.X, op)
+	}
+	if b, ok := e.(*ast.BinaryExpr); ok && b.Op == op {
+		return append(ocspFlattenBin(b.X, op), ocspFlattenBin(b.Y, op)...)
+	}
+	return []ast.Expr{e}
+}
+
+func (c *ctx) ocspLoopAct(b *ast.BlockStmt) string {
+	l := ocspDropLogs(b.List)
+	if len(l) != 1 {
+		fail("%s: IsRevoked: failure branch has more than one effective statement", c.pos(b))
+	}
+	switch x := l[0].(type) {
+	case *ast.BranchStmt:
+		if x.Label == nil && x.Tok == token.CONTINUE {
+			return "LoopAct.cont"
+		}
+		if x.Label == nil && x.Tok == token.BREAK {
+			return "LoopAct.brk"
+		}
+	case *ast.ReturnStmt:
+		if len(x.Results) == 2 && exprStr(x.Results[0]) == "nil" && exprStr(x.Results[1]) != "nil" {
+			return "LoopAct.fail"
+		}
+	}
+	fail("%s: IsRevoked: unsupported failure branch", c.pos(b))
+	return ""
+}
+
+func (c *ctx) ocspIsRevoked(f *ocspFacts) {
+	fd := c.funcDecl(ocspFile, "OCSPRevocationChecker", "IsRevoked")
+	b := ocspDropLogs(fd.Body.List)
+	at := 0
+	next := func(what string) ast.Stmt {
+		if at >= len(b) {
+			fail("%s: IsRevoked: missing statement: %s", c.pos(fd), what)
+		}
+		s := b[at]
+		at++
+		return s
+	}
+	// issuer
+	if s := next("issuer parse"); !c.ocspAssignIs(s, "issuer,err", "asn1parser.ParseIssuerRDNSequence(clientCertificate)") {
+		fail("%s: IsRevoked: expected `issuer, err := asn1parser.ParseIssuerRDNSequence(clientCertificate)`", c.pos(s))
+	}
+	if ifs, ok := next("issuer error check").(*ast.IfStmt); !ok || exprStr(ifs.Cond) != "err!=nil" || ifs.Else != nil || c.ocspLoopAct(ifs.Body) != "LoopAct.fail" {
+		fail("%s: IsRevoked: issuer parse error is not returned", c.pos(fd))
+	}
+	// cache key
+	ks, ok := next("cacheKey").(*ast.AssignStmt)
+	if !ok || len(ks.Lhs) != 1 || exprStr(ks.Lhs[0]) != "cacheKey" || len(ks.Rhs) != 1 {
+		fail("%s: IsRevoked: expected `cacheKey := …`", c.pos(fd))
+	}
+	for _, p := range ocspFlattenBin(ks.Rhs[0], token.ADD) {
+		switch exprStr(p) {
+		case "issuer.String()":
+			f.keyParts = append(f.keyParts, "KeyPart.issuer")
+		case "clientCertificate.Subject.String()":
+			f.keyParts = append(f.keyParts, "KeyPart.subject")
+		case "clientCertificate.SerialNumber.String()":
+			f.keyParts = append(f.keyParts, "KeyPart.serial")
+		default:
+			lit, ok := p.(*ast.BasicLit)
+			if !ok || lit.Kind != token.STRING {
+				fail("%s: IsRevoked: unsupported cache key component %s", c.pos(p), exprStr(p))
+			}
+			s, err := strconv.Unquote(lit.Value)
+			if err != nil {
+				fail("%s: %v", c.pos(lit), err)
+			}
+			f.keyParts = append(f.keyParts, "KeyPart.lit "+ocspCharList(s))
+		}
+	}
+	// cache first
+	if s := next("cache lookup"); !c.ocspAssignIs(s, "cache,err", "c.tryGetResponseFromCache(cacheKey)") {
+		fail("%s: IsRevoked: expected `cache, err := c.tryGetResponseFromCache(cacheKey)` before anything else", c.pos(s))
+	}
+	cifs, ok := next("cache hit return").(*ast.IfStmt)
+	if !ok || cifs.Init != nil || exprStr(cifs.Cond) != "err==nil" {
+		fail("%s: IsRevoked: expected `if err == nil { return cache, nil }`", c.pos(fd))
+	}
+	cl := ocspDropLogs(cifs.Body.List)
+	if r, ok := cl[0].(*ast.ReturnStmt); len(cl) != 1 || !ok || len(r.Results) != 2 || exprStr(r.Results[0]) != "cache" || exprStr(r.Results[1]) != "nil" {
+		fail("%s: IsRevoked: cache hit does not `return cache, nil`", c.pos(cifs))
+	}
+	if eb, ok := cifs.Else.(*ast.BlockStmt); cifs.Else != nil && (!ok || len(ocspDropLogs(eb.List)) != 0) {
+		fail("%s: IsRevoked: cache miss branch does more than logging", c.pos(cifs))
+	}
+	f.cacheFirst = true
+	// candidates and servers
+	if s := next("chains"); !c.ocspAssignIs(s, "chains", "core.NewCertificateChains(verifiedChains,c.ocspConfig.TrustedResponderCerts)") {
+		fail("%s: IsRevoked: expected chains := core.NewCertificateChains(verifiedChains, c.ocspConfig.TrustedResponderCerts)", c.pos(s))
+	}
+	if s := next("candidates"); !c.ocspAssignIs(s, "certCandidates,err",
+		"core.FindCertificateIssuerCandidates(issuer,&clientCertificate.Extensions,clientCertificate.PublicKeyAlgorithm,chains)") {
+		fail("%s: IsRevoked: unexpected issuer candidate computation", c.pos(s))
+	}
+	if s := next("server filter"); !c.ocspAssignIs(s, "ocspServerList", "c.filterHTTPOCSPServers(clientCertificate.OCSPServer)") {
+		fail("%s: IsRevoked: expected ocspServerList := c.filterHTTPOCSPServers(clientCertificate.OCSPServer)", c.pos(s))
+	}
+	if ds, ok := next("var output").(*ast.DeclStmt); !ok {
+		fail("%s: IsRevoked: expected `var output []byte = nil`", c.pos(ds))
+	}
+	// loops
+	outerL, ok := next("outer loop").(*ast.RangeStmt)
+	if !ok || len(outerL.Body.List) != 1 {
+		fail("%s: IsRevoked: expected the outer range loop with a single inner loop", c.pos(fd))
+	}
+	innerL, ok := outerL.Body.List[0].(*ast.RangeStmt)
+	if !ok {
+		fail("%s: IsRevoked: outer loop body is not a range loop", c.pos(outerL))
+	}
+	isSrv := func(r *ast.RangeStmt) bool {
+		return exprStr(r.X) == "ocspServerList" && r.Value != nil && exprStr(r.Value) == "ocspServer"
+	}
+	isCand := func(r *ast.RangeStmt) bool {
+		return exprStr(r.X) == "certCandidates" && r.Value != nil && exprStr(r.Value) == "certCandidate"
+	}
+	switch {
+	case isSrv(outerL) && isCand(innerL):
+		f.loopOrder = "LoopOrder.serversOuter"
+	case isCand(outerL) && isSrv(innerL):
+		f.loopOrder = "LoopOrder.candsOuter"
+	default:
+		fail("%s: IsRevoked: loops do not range over ocspServerList / certCandidates", c.pos(outerL))
+	}
+	lb := ocspDropLogs(innerL.Body.List)
+	li := 0
+	lnext := func(what string) ast.Stmt {
+		if li >= len(lb) {
+			fail("%s: IsRevoked: loop body: missing %s", c.pos(innerL), what)
+		}
+		s := lb[li]
+		li++
+		return s
+	}
+	if s := lnext("request"); !c.ocspAssignIs(s, "output,err", "c.executeHttpRequest(ocspServer,clientCertificate,certCandidate.Certificate)") {
+		fail("%s: IsRevoked: expected output, err = c.executeHttpRequest(ocspServer, clientCertificate, certCandidate.Certificate)", c.pos(s))
+	}
+	fe, ok := lnext("fetch error check").(*ast.IfStmt)
+	if !ok || fe.Init != nil || fe.Else != nil || exprStr(fe.Cond) != "err!=nil" {
+		fail("%s: IsRevoked: expected `if err != nil` after the request", c.pos(innerL))
+	}
+	f.onFetchErr = c.ocspLoopAct(fe.Body)
+	// optional: if output == nil { continue } (dead: io.ReadAll never returns nil without error)
+	if ifs, ok := lb[li].(*ast.IfStmt); ok && exprStr(ifs.Cond) == "output==nil" {
+		if ifs.Else != nil || c.ocspLoopAct(ifs.Body) != "LoopAct.cont" {
+			fail("%s: IsRevoked: unsupported `output == nil` branch", c.pos(ifs))
+		}
+		li++
+	}
+	if s := lnext("parse"); !c.ocspAssignIs(s, "ocspResponse,err", "c.parseOcspResponse(clientCertificate,certCandidates,output,ocspServer)") {
+		fail("%s: IsRevoked: expected ocspResponse, err := c.parseOcspResponse(clientCertificate, certCandidates, output, ocspServer)", c.pos(s))
+	}
+	pe, ok := lnext("parse error check").(*ast.IfStmt)
+	if !ok || pe.Init != nil || pe.Else != nil || exprStr(pe.Cond) != "err!=nil" {
+		fail("%s: IsRevoked: expected `if err != nil` after parseOcspResponse", c.pos(innerL))
+	}
+	f.onParseErr = c.ocspLoopAct(pe.Body)
+	// status
+	st, ok := lnext("revocationStatus").(*ast.AssignStmt)
+	if !ok || exprStr(st.Lhs[0]) != "revocationStatus" || len(st.Rhs) != 1 {
+		fail("%s: IsRevoked: expected `revocationStatus := core.RevocationStatus{…}`", c.pos(innerL))
+	}
+	if v, ok := ocspCompositeField(st.Rhs[0], "Revoked"); !ok || v != "false" {
+		fail("%s: IsRevoked: initial revocationStatus is not Revoked: false", c.pos(st))
+	}
+	rs, ok := lnext("revoked test").(*ast.IfStmt)
+	if !ok || rs.Init != nil || rs.Else != nil || len(rs.Body.List) != 1 {
+		fail("%s: IsRevoked: expected `if ocspResponse.Status == ocsp.Revoked { … }`", c.pos(innerL))
+	}
+	ra, ok := rs.Body.List[0].(*ast.AssignStmt)
+	if !ok || exprStr(ra.Lhs[0]) != "revocationStatus" {
+		fail("%s: IsRevoked: revoked branch does not assign revocationStatus", c.pos(rs))
+	}
+	if v, ok := ocspCompositeField(ra.Rhs[0], "Revoked"); !ok || v != "true" {
+		fail("%s: IsRevoked: revoked branch does not set Revoked: true", c.pos(rs))
+	}
+	switch exprStr(rs.Cond) {
+	case "ocspResponse.Status==ocsp.Revoked":
+		f.revokedIffStatusRevoked = true
+	case "ocspResponse.Status!=ocsp.Good":
+		f.revokedIffStatusRevoked = false
+	default:
+		fail("%s: IsRevoked: unsupported revoked test %s", c.pos(rs), exprStr(rs.Cond))
+	}
+	if s := lnext("eviction time"); !c.ocspAssignIs(s, "evictionTime", "c.calculateEvictionTime(ocspResponse)") {
+		fail("%s: IsRevoked: expected evictionTime := c.calculateEvictionTime(ocspResponse)", c.pos(s))
+	}
+	addStmt := lnext("cache add")
+	var addCall ast.Stmt
+	if ifs, ok := addStmt.(*ast.IfStmt); ok {
+		if ifs.Init != nil || ifs.Else != nil || exprStr(ifs.Cond) != "evictionTime>0" || len(ifs.Body.List) != 1 {
+			fail("%s: IsRevoked: unsupported guard around cache.Add: %s", c.pos(ifs), exprStr(ifs.Cond))
+		}
+		f.addGuard = "AddGuard.evictionPositive"
+		addCall = ifs.Body.List[0]
+	} else {
+		f.addGuard = "AddGuard.none"
+		addCall = addStmt
+	}
+	es, ok := addCall.(*ast.ExprStmt)
+	if !ok {
+		fail("%s: IsRevoked: expected c.cache.Add(…)", c.pos(addCall))
+	}
+	call, ok := es.X.(*ast.CallExpr)
+	if !ok || exprStr(call.Fun) != "c.cache.Add" || len(call.Args) != 3 || exprStr(call.Args[0]) != "cacheKey" || exprStr(call.Args[1]) != "evictionTime" {
+		fail("%s: IsRevoked: expected c.cache.Add(cacheKey, evictionTime, …)", c.pos(addCall))
+	}
+	val, ok := call.Args[2].(*ast.CompositeLit)
+	if !ok || exprStr(val.Type) != "cachedRevocationStatus" || len(val.Elts) != 2 || exprStr(val.Elts[0]) != "revocationStatus" {
+		fail("%s: IsRevoked: cached value is not cachedRevocationStatus{revocationStatus, <validUntil>}", c.pos(call))
+	}
+	switch exprStr(val.Elts[1]) {
+	case "time.Now().Add(evictionTime)":
+		f.validUntilIsNowPlusEviction = true
+	case "time.Now()":
+		f.validUntilIsNowPlusEviction = false
+	default:
+		fail("%s: IsRevoked: unsupported validUntil expression %s", c.pos(call), exprStr(val.Elts[1]))
+	}
+	if r, ok := lnext("return").(*ast.ReturnStmt); !ok || len(r.Results) != 2 || exprStr(r.Results[0]) != "&revocationStatus" || exprStr(r.Results[1]) != "nil" {
+		fail("%s: IsRevoked: loop body does not end in `return &revocationStatus, nil`", c.pos(innerL))
+	}
+	if li != len(lb) {
+		fail("%s: IsRevoked: unexpected statements at the end of the loop body", c.pos(lb[li]))
+	}
+	// tail
+	tail, ok := next("tail").(*ast.IfStmt)
+	if !ok || tail.Init != nil {
+		fail("%s: IsRevoked: expected the strict tail `if … { return nil, error } else { return not revoked }`", c.pos(fd))
+	}
+	if at != len(b) {
+		fail("%s: IsRevoked: statements after the tail", c.pos(b[at]))
+	}
+	f.tailLenOf = "LenOf.notTested"
+	f.tailNeedsStrict = false
+	for _, cj := range ocspFlattenBin(tail.Cond, token.LAND) {
+		switch exprStr(cj) {
+		case "len(ocspServerList)>0":
+			f.tailLenOf = "LenOf.filtered"
+		case "len(clientCertificate.OCSPServer)>0":
+			f.tailLenOf = "LenOf.unfiltered"
+		case "c.ocspConfig.OCSPAIAStrict":
+			f.tailNeedsStrict = true
+		default:
+			fail("%s: IsRevoked: unsupported conjunct in the tail condition: %s", c.pos(cj), exprStr(cj))
+		}
+	}
+	if c.ocspLoopAct(tail.Body) != "LoopAct.fail" {
+		fail("%s: IsRevoked: tail then-branch does not return an error", c.pos(tail))
+	}
+	eb, ok := tail.Else.(*ast.BlockStmt)
+	if !ok {
+		fail("%s: IsRevoked: tail has no else branch", c.pos(tail))
+	}
+	el := ocspDropLogs(eb.List)
+	r, ok := el[0].(*ast.ReturnStmt)
+	if len(el) != 1 || !ok || len(r.Results) != 2 || exprStr(r.Results[1]) != "nil" {
+		fail("%s: IsRevoked: tail else-branch is not a plain return", c.pos(eb))
+	}
+	if v, ok := ocspCompositeField(r.Results[0], "Revoked"); !ok || v != "false" {
+		fail("%s: IsRevoked: tail else-branch does not return Revoked: false", c.pos(eb))
+	}
+}
+
+func (c *ctx) ocspProvision() {
+	fd := c.funcDecl(ocspFile, "OCSPRevocationChecker", "Provision")
+	found := false
+	for _, s := range fd.Body.List {
+		if c.ocspAssignIs(s, "c.cache", `cache2go.Cache("ocsp_client")`) {
+			found = true
+		}
+	}
+	if !found {
+		fail("%s: Provision does not assign c.cache = cache2go.Cache(\"ocsp_client\")", c.pos(fd))
+	}
+	// the handle must not be assigned anywhere else
+	for _, d := range c.file(ocspFile).Decls {
+		fn, ok := d.(*ast.FuncDecl)
+		if !ok || fn.Body == nil || fn.Name.Name == "Provision" {
+			continue
+		}
+		ast.Inspect(fn.Body, func(n ast.Node) bool {
+			if as, ok := n.(*ast.AssignStmt); ok {
+				for _, l := range as.Lhs {
+					if exprStr(l) == "c.cache" {
+						fail("%s: c.cache assigned outside Provision", c.pos(as))
+					}
+				}
+			}
+			return true
+		})
+	}
+}
+
 func genOcsp(c *ctx, out string) {
+	var f ocspFacts
+	f.maxClockSkewMs = c.ocspDurationMs(c.ocspConstValue(ocspFile, "maxClockSkew"))
+	c.ocspFilter(&f)
+	c.ocspEviction(&f)
+	c.ocspAuthRules(&f)
+	c.ocspParseAttempts(&f)
+	c.ocspTryGet(&f)
+	c.ocspIsRevoked(&f)
+	c.ocspProvision()
+
+	l := newLean("Ocsp", "Crv.Ocsp")
+	l.p("/-- ocsp/ocsprevocationchecker.go as the model's intermediate representation (see Crv/Ocsp.lean `Facts`):")
+	l.p("filterHTTPOCSPServers, maxClockSkew (ms), IsRevoked (cache key, cache first, loops, failure branches, revoked test,")
+	l.p("cache.Add guard and value, tail condition), calculateEvictionTime, tryGetResponseFromCache, parseOcspResponse,")
+	l.p("isAuthorizedResponder. -/")
+	l.p("open Crv.Ocsp in")
+	l.p("def ocspFacts : Crv.Ocsp.Facts :=")
+	l.p("  { httpPrefix := %s", ocspCharList(f.httpPrefix))
+	l.p("    filterLowercases := %s", ocspBool(f.filterLowercases))
+	l.p("    maxClockSkew := %d", f.maxClockSkewMs)
+	l.p("    keyParts := [%s]", strings.Join(f.keyParts, ", "))
+	l.p("    cacheFirst := %s", ocspBool(f.cacheFirst))
+	l.p("    validUntilChecked := %s", ocspBool(f.validUntilChecked))
+	l.p("    loopOrder := %s", f.loopOrder)
+	l.p("    onFetchErr := %s", f.onFetchErr)
+	l.p("    onParseErr := %s", f.onParseErr)
+	l.p("    revokedIffStatusRevoked := %s", ocspBool(f.revokedIffStatusRevoked))
+	l.p("    evictionUsesNextUpdate := %s", ocspBool(f.evictionUsesNextUpdate))
+	l.p("    addGuard := %s", f.addGuard)
+	l.p("    validUntilIsNowPlusEviction := %s", ocspBool(f.validUntilIsNowPlusEviction))
+	l.p("    tailLenOf := %s", f.tailLenOf)
+	l.p("    tailNeedsStrict := %s", ocspBool(f.tailNeedsStrict))
+	l.p("    parseAttempts := [%s]", strings.Join(f.parseAttempts, ", "))
+	l.p("    authRules := [%s] }", strings.Join(f.authRules, ", "))
+	l.write(out)
+	c.facts["ocsp"] = map[string]interface{}{
+		"httpPrefix": f.httpPrefix, "filterLowercases": f.filterLowercases, "maxClockSkewMs": f.maxClockSkewMs,
+		"keyParts": f.keyParts, "loopOrder": f.loopOrder, "onFetchErr": f.onFetchErr, "onParseErr": f.onParseErr,
+		"addGuard": f.addGuard, "tailLenOf": f.tailLenOf, "tailNeedsStrict": f.tailNeedsStrict,
+		"parseAttempts": f.parseAttempts, "authRules": f.authRules, "validUntilChecked": f.validUntilChecked,
+		"usesParseForCert":    len(f.parseAttempts) > 0 && !strings.Contains(strings.Join(f.parseAttempts, ";"), "passesCert := false"),
+		"firstParseIssuerNil": len(f.parseAttempts) > 0 && strings.Contains(f.parseAttempts[0], "passesIssuer := false"),
+	}
 }
